@@ -15,6 +15,7 @@ import (
 
 type PathSample struct {
 	Decisions string         `json:"decisions"`
+	ModelOK   bool           `json:"model_ok"` // the solver gave a model of the path condition (inputs are meaningful)
 	Inputs    map[string]any `json:"inputs,omitempty"`
 	Reached   []string       `json:"reached,omitempty"`
 	End       string         `json:"end"`
@@ -93,6 +94,7 @@ func (e *Engine) runPath(sol *Solver, prefix []Decision, wantSample bool) (res p
 			s := &PathSample{End: res.end, Decisions: decString(w.trace)}
 			if in, ok := w.model(""); ok {
 				s.Inputs = in
+				s.ModelOK = true
 			}
 			for l := range w.reached {
 				s.Reached = append(s.Reached, l)
@@ -227,6 +229,11 @@ func (e *Engine) explore(deadline time.Time) *Result {
 				mu.Unlock()
 
 				pr := e.runPath(sol, prefix, wantSample)
+				// a solver process that died (killed, out of time under load) says nothing about the path: run the
+				// path again on a fresh process before giving up on it
+				for retry := 0; retry < 2 && pr.end == "unsupported" && strings.HasPrefix(pr.msg, "solver died"); retry++ {
+					pr = e.runPath(sol, prefix, wantSample)
+				}
 
 				mu.Lock()
 				active--
